@@ -1,6 +1,6 @@
 (* DynArmFacts.v: Dyn.ser_prim is, on the fourteen numeric / boolean kinds, what the arms of
    ser_named_type read from postcard-dyn/src/ser.rs compute (C17, C18). *)
-From PV Require Import Base MachineInt VarintParams GenArith GenLoops Varint DataModel Schema SchemaDecl MaxSize Dyn DynArmDecl GenDynArms DynArms.
+From PV Require Import Base MachineInt VarintParams GenArith GenLoops Varint DataModel Schema SchemaDecl MaxSize Dyn DynArmDecl GenDynArms DynArms DynCompositeExpected GenDynComposite.
 From Coq Require Import Lia ZArith.
 Open Scope N_scope.
 
@@ -112,3 +112,9 @@ Proof.
   all: destruct j as [|b|z|fb|bs|l|kvs]; unfold as_i64, as_u64, as_f64; cbn [option_map]; try discriminate.
   all: repeat match goal with |- context [if ?c then _ else _] => destruct c; cbn [option_map]; try discriminate end.
 Qed.
+
+(* ---- the non-scalar arms: matched against the templates the hand model was written from, with
+   the same error kinds and tag bytes ---- *)
+Lemma dyn_composite_is_source :
+  dyn_ser_composite_holes = dyn_ser_composite_expected /\ dyn_de_composite_holes = dyn_de_composite_expected.
+Proof. split; reflexivity. Qed.
